@@ -115,8 +115,23 @@ func RegexpPat(t *rapid.T, label string) string {
 	if rapid.IntRange(0, 19).Draw(t, label+"_bad") == 0 {
 		return rapid.SampledFrom([]string{"(", "a(", "[a", "*a"}).Draw(t, label)
 	}
-	return rapid.SampledFrom(SafeRegexps).Draw(t, label)
+	if rapid.IntRange(0, 2).Draw(t, label+"_made") != 0 {
+		return rapid.SampledFrom(SafeRegexps).Draw(t, label)
+	}
+	// a pattern made for the occasion: one of the bodies under any of the
+	// flag spellings (so that one body meets several flag sets in a script and
+	// in a process), now and then with one more alternative that is a literal
+	// of its own - a process meets thousands of different patterns, and the
+	// common ones again after them
+	p := rapid.SampledFrom(regexpFlags).Draw(t, label+"_flags") + rapid.SampledFrom(regexpBodies).Draw(t, label+"_body")
+	if rapid.Bool().Draw(t, label+"_tagged") {
+		p += "|" + string(rapid.SliceOfN(rapid.SampledFrom([]rune("abcxyzABC0189_ é狐")), 2, 4).Draw(t, label+"_tag"))
+	}
+	return p
 }
+
+var regexpFlags = []string{"", "", "(?i)", "(?m)", "(?im)"}
+var regexpBodies = []string{"a", "^a", "^b", "a$", "b$", "^ab$", "a.", "b+", "abc$", "[0-9]+", "steve", "a|b", "^$", "x.y", `\.`, "狐", "A", "^B", "=b", "a=", "é+"}
 
 // Scalar draws a value of one of the given scalar kinds.
 func Scalar(t *rapid.T, label string, kinds ...lang.Kind) lang.Value {
